@@ -310,6 +310,8 @@ class Analysis:
             rest = rest[1:]
         else:
             ident = ("vec", l, st.ver.get(l, 0))
+            if 1 <= l <= self.b.argc and st.ver.get(l, 0) == 0:
+                ident = ("arg", l)     # a by-value struct / tuple parameter that was not touched: its fields are entry values
         if ident is None or not rest or not all(isinstance(e, dict) and "f" in e and "d" not in e for e in rest):
             return None
         if isinstance(ident, tuple) and ident[0] == "vec" and isinstance(ident[2], tuple) and ident[2][0] == "vol":
@@ -471,6 +473,16 @@ class Analysis:
             if val is None and not fields and cmpv is None and INT.match(self.ty(d)):
                 val = self.fresh("op", bb, idx, "derived", "")
                 self.derive(val, [x for x in (a, c) if x is not None])
+        elif k == "Cast" and self.is_slice_ref(d) and r["o"][0]["k"] in ("cp", "mv") and len(r["o"][0]["p"]) == 1:
+            # unsizing coercion &[T; N] -> &[T]: the same memory, the array's length
+            sl0 = r["o"][0]["p"][0]
+            ptsv = st.pts.get(sl0)
+            val = st.env.get(sl0)
+            if val is None and ptsv is None:
+                m_ = re.match(r"^&(mut )?\[.*; (\d+)\]$", self.ty(sl0))
+                if m_:
+                    val = self.fresh("arr", bb, idx, "other", "")
+                    st.lendef[val.single()] = Lin(int(m_.group(2)))
         elif k == "Cast":
             o = r["o"][0]
             src = self.operand(st, o, bb, idx)
@@ -873,6 +885,11 @@ class Analysis:
                 v_ = self.operand(st, a_, bb, "t")
                 if v_ is not None and v_.t:
                     self.arg_taints.setdefault((cid, i_ + 1), set()).update(self.taint_of([v_]))
+                elif a_["k"] in ("cp", "mv") and len(a_["p"]) == 1:
+                    # a tuple / struct literal passed by value (binrw args): what its fields were built from
+                    for kk, vv in st.env.items():
+                        if isinstance(kk, tuple) and kk[0] == a_["p"][0] and isinstance(kk[1], int) and vv.t:
+                            self.arg_taints.setdefault((cid, i_ + 1), set()).update(self.taint_of([vv]))
         # preconditions of workspace callees (bounds their body could only prove under an assumption about its parameters)
         for H in self.requires.get(cid, ()):
             inst = Lin(H.c)
@@ -889,8 +906,13 @@ class Analysis:
                     if sub is not None and not (sub.single() is not None and sub.single()[0] == "len"):
                         idx_l.append(sub)
                 elif a[0] == "fld" and a[1][0] == "arg" and a[1][1] - 1 < len(args):
-                    ident = self.value_atom(st, args[a[1][1] - 1])
-                    if ident is not None:
+                    act = args[a[1][1] - 1]
+                    ident = self.value_atom(st, act)
+                    if act["k"] in ("cp", "mv") and len(act["p"]) == 1 and len(a[2]) == 1 and str(a[2][0]).isdigit() and (act["p"][0], int(a[2][0])) in st.env:
+                        # a tuple / struct literal passed by value: the field is the operand it was built from
+                        sub = st.env[(act["p"][0], int(a[2][0]))]
+                        idx_l.append(sub)
+                    elif ident is not None:
                         na = ("fld", ident, a[2])
                         if na not in self.atom_src:
                             self.atom_src[na] = self.req_src.get(a, ("other", ""))
@@ -1179,10 +1201,21 @@ def analyse_closure(prog, cl, rounds=4, krate_prefix="cascette_"):
     summaries = {}
     posts = {"facts": {}, "src": {}, "ty": {}}
     has_caller = set()
+    indirect = set()
     for bid in cl:
         for (s_id, how, cc) in prog.callers.get(bid, []):
             if cc is not None and s_id in cl and (prog.bodies[s_id].root or s_id) != bid:
-                has_caller.add(bid)
+                if how == "call" and cc.id == bid:
+                    has_caller.add(bid)
+                else:
+                    indirect.add(bid)   # reached through trait dispatch / a function reference: no call site to instantiate a precondition at
+    # a precondition is only as good as the call sites that check it: a direct call instantiates it; an indirect edge (trait dispatch, fn
+    # reference) cannot, and gets an unprovable obligation of its own below (so nothing is dropped silently)
+    indirect_edges = {}
+    for bid in cl:
+        for (s_id, how, cc) in prog.callers.get(bid, []):
+            if cc is not None and s_id in cl and (prog.bodies[s_id].root or s_id) != bid and not (how == "call" and cc.id == bid):
+                indirect_edges.setdefault(bid, []).append((s_id, cc))
     dirty = None   # None = everything
     callers_of = {}
     for bid in cl:
@@ -1253,6 +1286,14 @@ def analyse_closure(prog, cl, rounds=4, krate_prefix="cascette_"):
         for c_ in changed:
             dirty |= callers_of.get(c_, set())
             dirty.add(c_)
+    for bid, reqs in requires.items():
+        for (s_id, cc) in indirect_edges.get(bid, []):
+            if s_id in results:
+                sk = Sink(prog.bodies[s_id], cc.bb, "precondition", "precondition of %s (reached indirectly: %s)" % (bid.split("::")[-1], "; ".join(repr(x) for x in reqs)[:80]),
+                          [None], [], cc.loc(), False, [None])
+                sk.delegated = None
+                sk.used_assumptions = set()
+                results[s_id].sinks.append(sk)
     # what the in-closure callers pass for each integer parameter (so that `param` taint can be resolved one level up)
     param_in = {}
     for bid, a in results.items():
